@@ -32,6 +32,10 @@ type c14Op struct {
 	// (Broker.deleteSession first, then the connection ends); conn on a connected
 	// id (take-over): how the superseded connection ends afterwards (disconnect | drop)
 	How string `json:"how,omitempty"`
+	// conn: the connection carries a WILL message; the Publish pipeline of the harness
+	// lets it pass ("pass"), drops it ("drop") or answers Disconnect ("disc") when the
+	// connection ends without a DISCONNECT packet
+	Will string `json:"will,omitempty"`
 }
 
 type c14In struct {
